@@ -295,7 +295,7 @@ DE_B = "one iteration of the events loop of dispatch_events from an ARBITRARY st
 DE_B1 = "dispatch_events for a batch of exactly one event (events loop unwound once, then the loop-exit assumption), all paths to the return"
 M_DE = {
     "pa2": M("pa2_reset", OB.ob_pa2_reset, OB.ob_pa2_reset.__doc__, DE_FN, DE_B, replay=["d3_pending_action_error_path"]),
-    "pav": M("pa_value", OB.ob_pa_value, OB.ob_pa_value.__doc__, DE_FN, DE_B, replay=["d3_pending_action_error_path"]),
+    "pav": M("pa_value", OB.ob_pa_value, OB.ob_pa_value.__doc__, DE_FN, DE_B, replay=["d3_pending_action_error_path", "c08_reentrancy_scenarios"]),
     "disp1": M("disp1_receiver", OB.ob_disp1_receiver, OB.ob_disp1_receiver.__doc__, DE_FN, DE_B, replay=["c01_routing_scenarios", "c14_lifecycle_scenarios", "c16_removed_in_callback"]),
     "fsub": M("tokens_forget_sub", OB.ob_tokens_forget_sub, OB.ob_tokens_forget_sub.__doc__, DE_FN, DE_B, replay=["c14_lifecycle_scenarios"]),
     "rm3": M("rm3_removed_check", OB.ob_rm3_removed_check, OB.ob_rm3_removed_check.__doc__, DE_FN, DE_B, replay=["c16_removed_in_callback", "c14_lifecycle_scenarios", "d13_self_remove_then_error", "d15_remove_with_failing_unregister_lifecycle"]),
@@ -402,8 +402,8 @@ P("C04", "model_checking", [], [M_CH["send"], M_CH["process"], M_PING["ping"], P
 addm("C05", [M_TM["wheel"], M_TM["timer"], M_TM["stale"], M_POLL])
 addm("C06", [M_H["remove"], M_H["disable"], M_H["update"], M_H["enable"], M_DE["rm3"], M_DE["disp1"], M_TOK, M_SLOTS])
 addm("C07", [M_H["disable"], M_H["enable"], M_DE["pa2"], M_DE["fsub"], M_DE["rm3"], M_TM["timer"], M_DELEG])
-addm("C08", [M_DE["re1"], M_H["re2"], M_EX["process"], M_DE["pa2"], M_H["idles"], M_DE["rm3"], M_H["remove"]])
-addm("C09", [M_DE["pa2"], M_DE["pav"], M_H["disable"], M_H["update"]])
+addm("C08", [M_DE["re1"], M_H["re2"], M_EX["process"], M_DE["pa2"], M_H["idles"], M_DE["rm3"], M_H["remove"], M_DE["pav"]])
+addm("C09", [M_DE["pa2"], M_DE["pav"], M_H["disable"], M_H["update"], M_DE["fsub"]])
 P("C10", "model_checking", [], [M_EX["process"], M_EX["send"], M_EX["drop"], M_EX["stream"], P_Q["exec"]],
   bounds="engine M: dequeue/poll loops unrolled twice; engine P: see obligation bounds",
   outside="async_task internals (a wake of a non-running, non-scheduled task calls the schedule function once; futures are "
